@@ -64,8 +64,32 @@ func (r *ContentReader) Read(b []byte) (got int, err error) {
 	return got, err
 }
 
+// readLine reads up to and including the next line break.
+// A line ends with \n, \r\n or a \r that is not followed by \n,
+// that's the same set of line breaks that the YAML parser recognises,
+// so line numbers are the same here and there.
+func (r *ContentReader) readLine() (line []byte, err error) {
+	var b byte
+	for {
+		b, err = r.src.ReadByte()
+		if err != nil {
+			return line, err
+		}
+		line = append(line, b)
+		if b == '\n' {
+			return line, nil
+		}
+		if b == '\r' {
+			if next, perr := r.src.Peek(1); perr == nil && next[0] == '\n' {
+				continue
+			}
+			return line, nil
+		}
+	}
+}
+
 func (r *ContentReader) readNextLine() (err error) {
-	r.buf, err = r.src.ReadBytes('\n')
+	r.buf, err = r.readLine()
 	if len(r.buf) == 0 {
 		return err
 	}
@@ -196,7 +220,7 @@ func hasCommentType(lineComments []comments.Comment, t comments.Type) bool {
 func (r *ContentReader) emptyCurrentLinePrefix(comments []comments.Comment) {
 	for _, c := range comments {
 		for i := 0; i < c.Offset && i < len(r.buf); i++ {
-			if r.buf[i] != '\n' {
+			if r.buf[i] != '\n' && r.buf[i] != '\r' {
 				r.buf[i] = ' '
 			}
 		}
@@ -211,7 +235,7 @@ func (r *ContentReader) emptyCurrentLine(comments []comments.Comment) {
 		break
 	}
 	for i := range r.buf {
-		if r.buf[i] == '\n' {
+		if r.buf[i] == '\n' || r.buf[i] == '\r' {
 			continue
 		}
 		if i < offset || r.inBegin {
